@@ -16,7 +16,33 @@ import (
 // nested under.
 func nestingConds(b *ssa.BasicBlock) []string {
 	var out []string
-	for i := 0; i < 60 && len(b.Preds) == 1; i++ {
+	for i := 0; i < 60; i++ {
+		if len(b.Preds) != 1 {
+			// a statement that merges again before b — an if without else, a complete if/else — precedes b
+			// inside the same region: continue from the block that statement started in (b's immediate
+			// dominator), provided every predecessor of b lies under it and b is not a loop head
+			d := b.Idom()
+			if d == nil || len(b.Preds) == 0 {
+				break
+			}
+			ok := true
+			for _, p := range b.Preds {
+				if !(p == d || d.Dominates(p)) || b.Dominates(p) {
+					ok = false
+				}
+			}
+			if !ok {
+				break
+			}
+			// d's own branch is not a condition of b (both arms reach b); go on above d
+			if len(d.Preds) == 0 {
+				break
+			}
+			b = d
+			if len(b.Preds) != 1 {
+				continue
+			}
+		}
 		p := b.Preds[0]
 		if ifi, ok := p.Instrs[len(p.Instrs)-1].(*ssa.If); ok {
 			cond := ifi.Cond
@@ -35,6 +61,42 @@ func nestingConds(b *ssa.BasicBlock) []string {
 			out = append(out, s)
 		}
 		b = p
+	}
+	return out
+}
+
+// domConds is nestingConds over the dominator tree: the conditions of every
+// dominating branch one of whose arms b lies entirely under (the arm's first
+// block has the branch as its only predecessor and dominates b). Unlike
+// nestingConds it looks past statements that merge again before b — an
+// if-without-else that precedes b inside the same guarded region.
+func domConds(b *ssa.BasicBlock) []string {
+	var out []string
+	for d := b.Idom(); d != nil; d = d.Idom() {
+		ifi, ok := d.Instrs[len(d.Instrs)-1].(*ssa.If)
+		if !ok {
+			continue
+		}
+		for idx := 0; idx < 2; idx++ {
+			sc := d.Succs[idx]
+			if len(sc.Preds) != 1 || !(sc == b || sc.Dominates(b)) {
+				continue
+			}
+			cond, neg := ifi.Cond, idx == 1
+			for {
+				if u, isU := cond.(*ssa.UnOp); isU && u.Op == token.NOT {
+					cond, neg = u.X, !neg
+					continue
+				}
+				break
+			}
+			s := condSym(cond)
+			if neg {
+				s = "!" + s
+			}
+			out = append(out, s)
+			break
+		}
 	}
 	return out
 }
